@@ -195,7 +195,56 @@ def clause_e(repo, chk, res):
 VAR_FILE = "tf_pwa/variable.py"
 
 
+def clause_scale(repo, chk):
+    """the objective wrapper handed to scipy scales value and gradient by grad_scale exactly once (fit_scipy divides
+    s.fun by grad_scale once to report min_nll)"""
+    import numpy as np
+    import sympy as sp
+
+    from ..sym import PyFunc, SelfObj, Translator, Unmodelled, equal
+    FI = "tf_pwa/fit_improve.py"
+    chk.rule("E-scale", "Cached_FG(f_g, grad_scale)(x), interpreted with f_g returning (F, (G1, G2)) and no NaN: the pair handed to the minimiser is (grad_scale F, grad_scale G) - one common factor, applied once - and Cached_FG.fun(x) is F itself; fit_scipy reports s.fun / grad_scale")
+    cls = repo.cls(FI + "::Cached_FG")
+    sc = sp.Symbol("grad_scale", positive=True)
+    F, G1, G2 = sp.symbols("F G1 G2", real=True)
+
+    def first(tr, d, args, kwargs, n):
+        if d.split(".")[-1] == "isnan":
+            a = args[0]
+            if isinstance(a, np.ndarray):
+                return [False] * a.size
+            if isinstance(a, (list, tuple)):
+                return [False] * len(a)
+            return False
+        if d.split(".")[-1] == "all" and isinstance(args[0], (bool, list)):
+            return bool(args[0]) if isinstance(args[0], bool) else all(args[0])
+        return NotImplemented
+
+    so = SelfObj(cls, {"f_g": PyFunc(lambda x: (F, np.array([G1, G2], dtype=object))), "grad_scale": sc, "cached_fun": 0, "cached_grad": 0, "ncall": 0})
+    tr = Translator(repo, hooks={"numeric_call_first": first, "allow_attr_store": True}, max_depth=3)
+    try:
+        out = tr.call_fn(cls.methods["__call__"], [np.array([sp.Symbol("x1"), sp.Symbol("x2")], dtype=object)], {}, self_obj=so)
+        so2 = SelfObj(cls, dict(so.attrs, cached_fun=0, cached_grad=0))
+        fval = tr.call_fn(cls.methods["fun"], [np.array([sp.Symbol("x1"), sp.Symbol("x2")], dtype=object)], {}, self_obj=so2)
+    except Unmodelled as e:
+        raise AnalysisError("Cached_FG cannot be interpreted: %s" % e)
+    ok = isinstance(out, tuple) and len(out) == 2 and equal(sp.sympify(out[0]), sc * F)[0] is True and all(equal(sp.sympify(a), b)[0] is True for a, b in zip(np.asarray(out[1], dtype=object).reshape(-1), (sc * G1, sc * G2)))
+    ok_f = equal(sp.sympify(fval), F)[0] is True
+    chk.oblige("E-scale", "Cached_FG.__call__ -> (%s, %s) ; Cached_FG.fun -> %s" % (out[0] if isinstance(out, tuple) else out, list(np.asarray(out[1], dtype=object).reshape(-1)) if isinstance(out, tuple) else "?", fval), ok and ok_f)
+    if not ok:
+        chk.violation("E-scale", cls.methods["__call__"].key, "objective", "the minimiser is given %s for f_g = (F, (G1, G2)): value and gradient must both be scaled by grad_scale exactly once, otherwise fit_scipy's min_nll = s.fun / grad_scale is not the NLL of the returned parameters" % (out,), file=FI, line=cls.methods["__call__"].lineno)
+    if not ok_f:
+        chk.violation("E-scale", cls.methods["fun"].key, "fun", "Cached_FG.fun returns %s instead of the unscaled objective F" % fval, file=FI, line=cls.methods["fun"].lineno)
+    # fit_scipy undoes the factor once
+    fs = repo.fn("tf_pwa/fit.py::fit_scipy")
+    undo = [n for n in walk_local(fs.node) if isinstance(n, ast.BinOp) and isinstance(n.op, ast.Div) and norm_text(n.right) == "grad_scale" and norm_text(n.left).endswith(".fun")]
+    chk.oblige("E-scale", "fit_scipy reports <result>.fun / grad_scale (%d site)" % len(undo), len(undo) >= 1)
+    if not undo:
+        chk.violation("E-scale", fs.key, "undo", "fit_scipy no longer divides the minimiser's objective value by grad_scale: min_nll is grad_scale times the NLL", file="tf_pwa/fit.py", line=fs.lineno)
+
+
 def run(repo, chk, tier):
+    clause_scale(repo, chk)
     res = Resolver(repo)
     eff = Effects(repo, res)
     clause_a(repo, chk, res)
@@ -208,10 +257,11 @@ def run(repo, chk, tier):
 
     check_constraint_once(repo, chk, ("value", "grad"), rule="G-once")
     # the bounds a fit driver asks for are the bounds in force (shared with C16)
-    from .c16 import clause_g, clause_setbound
+    from .c16 import clause_d as bound_formulas, clause_g, clause_setbound
 
     clause_setbound(repo, chk)
     clause_g(repo, chk)
+    bound_formulas(repo, chk)  # D-bound: the transform keeps a bounded parameter inside its limits (a limit of 0 included)
 
 
 # --------------------------------------------------------------------------- (a)
